@@ -31,6 +31,7 @@ FIRST_INT = 8  # int variant: the first FIRST_INT calls (it cycles through the r
 EVERY = 25     # ... and every EVERY-th one afterwards (both variants)
 FIRST_JIT = 1  # jit variant: the first call of a key (tracing and compiling is the expensive part)
 JIT_MOD = 1    # ... for the keys whose hash is 0 modulo JIT_MOD (set by the worker per tier)
+JIT_UNSUPPORTED_CLASSES = {"LSEMGaussianConditional"}
 TOL = 1e-8
 
 _counts = {}
@@ -391,10 +392,38 @@ def _worst_condition(*objs):
     return worst
 
 
+def _calm_inputs(*objs):
+    """every float entry of the operands is at most 1e3 in magnitude and every covariance /
+    precision among them has its eigenvalues within [1e-3, 1e3]: the regime in which a finite
+    difference, or the comparison of two differently rounded executions, can resolve 1e-8
+    (hostile scales and far-away means make the library's documented information-form and
+    natural-parameter formulas cancel at the level of the quantity itself - the value oracles
+    account for that term by term, a generic monitor cannot)."""
+    for o in objs:
+        leaves = {}
+        _leaves(o, "o", leaves)
+        for k, a in leaves.items():
+            if isinstance(a, str) or a.dtype.kind != "f" or a.size == 0:
+                continue
+            fin = np.isfinite(a)
+            if fin.any() and float(np.max(np.abs(a[fin]))) > 1e3:
+                return False
+            if a.ndim >= 2 and a.shape[-1] == a.shape[-2] and fin.all() and np.allclose(
+                    a, np.swapaxes(a, -1, -2), rtol=1e-6, atol=0.0):
+                w = np.linalg.eigvalsh(0.5 * (a + np.swapaxes(a, -1, -2)))
+                pos = w > 1e-13 * np.max(np.abs(w), axis=-1, keepdims=True)
+                if np.any(w[pos] < 1e-3):
+                    return False
+    return True
+
+
 def _run_jit(fn, key, res, self0, args0, kwargs0, rec, report, count):
     import jax
 
     if not _is_libobj(self0):
+        return
+    if not _calm_inputs(self0, args0, kwargs0):
+        rec.count("form_jit_out_of_domain")
         return
     # differently rounded executions of an information-form update agree to about eps times the
     # condition number of the matrices it inverts: judged where that stays below 1e-8 (the same
@@ -417,9 +446,22 @@ def _run_jit(fn, key, res, self0, args0, kwargs0, rec, report, count):
     try:
         r_jit = jax.jit(f)(self0, [args0[i] for i in pos], [kwargs0[k] for k in kws])
     except Exception as e:
-        rec.count("form_unsupported:jit")
-        if len(rec.notes) < 8:
-            rec.notes.append(f"FORM jit unsupported at {key}: {type(e).__name__}")
+        import os
+        if os.environ.get("GT_FORM_LOG"):
+            with open(os.environ["GT_FORM_LOG"], "a") as fh:
+                fh.write(f"jit\t{key}\t{type(e).__name__}\t{str(e)[:120]!r}\n")
+        # what cannot cross a jit boundary on the current tree (measured over all checks): the
+        # squared-exponential feature model as an argument, and results that are Python callables
+        if type(self0).__name__ in JIT_UNSUPPORTED_CLASSES or "not a valid JAX type" in str(e) \
+                or callable(res):
+            rec.count("form_unsupported:jit")
+            if len(rec.notes) < 8:
+                rec.notes.append(f"FORM jit unsupported at {key}: {type(e).__name__}")
+            return
+        from . import core
+        count("FORM", key)
+        report("FORM", "jit-raises", key, {"exc": core.exc_info(e), "variant": "the eager call "
+                                           "returned; the same call under jax.jit raises"})
         return
     # compiled code rounds differently (fusion, other reduction orders): the distance the
     # eager result itself moves under a 1e-14 perturbation of the inputs is the yardstick
@@ -438,34 +480,211 @@ def _run_jit(fn, key, res, self0, args0, kwargs0, rec, report, count):
                                               "receiver and numeric arguments traced"))
 
 
-# ------------------------------------------------------------------ recall and sibling variants
-def _alt_args(args, kwargs):
-    """the same call shape with other values: float arrays affinely changed, integer index arrays
-    reversed. None if nothing can be varied."""
+def _run_grad(fn, key, res, self0, args0, kwargs0, rec, report, count):
+    """reverse-mode gradient of a fixed random linear functional of the result with respect to
+    every float leaf of receiver and arguments: finite wherever inputs and outputs are, and its
+    directional derivative along a random direction equals a Richardson-extrapolated central
+    difference of the eager call (a NaN-producing dead branch of a where, a stop_gradient or a
+    custom derivative rule in the wrong place leave values untouched and only show here)."""
+    import jax
     from jax import numpy as jnp
 
-    changed = [False]
+    if not _is_libobj(self0) or callable(res) or not all_finite(res):
+        return
+    if _worst_condition(self0, args0, kwargs0, res) > 1e6 or not _calm_inputs(
+            self0, args0, kwargs0):
+        rec.count("form_grad_out_of_domain")
+        return
+    pos = [i for i, a in enumerate(args0) if _is_dynamic(a)]
+    kws = [k for k, a in kwargs0.items() if _is_dynamic(a)]
+    # objects enter through their *defining* parameters and are rebuilt by their public constructor
+    # inside the differentiated function (derived fields - precision next to covariance, log-
+    # determinants, natural parameters - are recomputed consistently, as in user code that builds
+    # the object from parameters it optimises); other objects and arrays through their pytree leaves
+    reb = _rebuilders()
+    slots, leaves = [], []
 
-    def alt(a):
-        if _is_libobj(a) or not (hasattr(a, "dtype") and hasattr(a, "ndim")) or a.ndim == 0:
-            return a
-        if np.issubdtype(a.dtype, np.floating):
-            changed[0] = True
-            return jnp.asarray(np.asarray(a) * 1.37 + 0.11)
-        if np.issubdtype(a.dtype, np.integer) and a.ndim == 1 and a.shape[0] > 1:
-            changed[0] = True
-            return jnp.asarray(np.asarray(a)[::-1].copy())
-        return a
+    def add(o):
+        fields = reb.get(type(o)) if _is_libobj(o) else None
+        if fields:
+            names = [f for f in fields if o.__dict__.get(f) is not None]
+            vals = [o.__dict__[f] for f in names]
+            extra = {"num_dim": o.num_dim} if hasattr(o, "num_dim") else {}
+            n0 = len(leaves)
+            leaves.extend(vals)
+            slots.append(lambda ls, n0=n0, names=names, cls=type(o), extra=extra: cls(
+                **dict(zip(names, ls[n0:n0 + len(names)])), **extra))
+        else:
+            lv, td = jax.tree_util.tree_flatten(o)
+            n0 = len(leaves)
+            leaves.extend(lv)
+            slots.append(lambda ls, n0=n0, n=len(lv), td=td: jax.tree_util.tree_unflatten(
+                td, ls[n0:n0 + n]))
 
-    a2 = tuple(alt(a) for a in args)
-    k2 = {k: alt(v) for k, v in kwargs.items()}
-    return (a2, k2) if changed[0] else None
+    try:
+        add(self0)
+        for i in pos:
+            add(args0[i])
+        for k in kws:
+            add(kwargs0[k])
+    except Exception:
+        rec.count("form_unsupported:grad")
+        return
+    if not leaves or not all(hasattr(l, "dtype") and np.issubdtype(l.dtype, np.floating)
+                             for l in leaves):
+        rec.count("form_unsupported:grad")
+        return
+    leaves = [jnp.asarray(l, dtype=jnp.float64) for l in leaves]
+    # leaves with non-finite entries (an infinite truncation limit) are constants of the call
+    active = [i for i, l in enumerate(leaves) if bool(np.all(np.isfinite(np.asarray(l))))]
+    const = list(leaves)
+
+    def scalar(act):
+        ls = list(const)
+        for i, v in zip(active, act):
+            ls[i] = v
+        objs = [b(ls) for b in slots]
+        s, dyn_a, dyn_k = objs[0], objs[1:1 + len(pos)], objs[1 + len(pos):]
+        a = list(args0)
+        for i, v in zip(pos, dyn_a):
+            a[i] = v
+        k = dict(kwargs0)
+        for n, v in zip(kws, dyn_k):
+            k[n] = v
+        r = fn(s, *a, **k)
+        tot = 0.0
+        for j, leaf in enumerate(jax.tree_util.tree_leaves(r)):
+            if hasattr(leaf, "dtype") and jnp.issubdtype(leaf.dtype, jnp.floating):
+                w = np.random.default_rng(1000 + j).uniform(0.5, 1.5, np.shape(leaf))
+                tot = tot + jnp.sum(w * leaf)
+        return tot
+
+    leaves = [leaves[i] for i in active]
+    if not leaves:
+        return
+    try:
+        f0 = float(scalar(leaves))
+        g = jax.grad(scalar)(leaves)
+    except Exception as e:
+        rec.count("form_unsupported:grad")
+        if len(rec.notes) < 8:
+            rec.notes.append(f"FORM grad unsupported at {key}: {type(e).__name__}")
+        return
+    if not np.isfinite(f0):
+        return
+    count("FORM", key)
+    rec.evaluations += 1
+    rec.count("form_grad_evaluated")
+    g = [np.asarray(x, dtype=float) for x in g]
+    g_finite = all(np.all(np.isfinite(x)) for x in g)
+    rng = np.random.default_rng(777)
+    d = []
+    for l in leaves:
+        a = np.asarray(l, dtype=float)
+        n = rng.standard_normal(a.shape)
+        if a.ndim >= 2 and a.shape[-1] == a.shape[-2]:
+            n = 0.5 * (n + np.swapaxes(n, -1, -2))
+            n = n * (a != 0)  # keep the structure of diagonal matrices
+        d.append(n * (np.abs(a) + 1e-3 * (np.max(np.abs(a)) if a.size else 0.0)))
+    gd = float(sum(np.sum(x * y) for x, y in zip(g, d))) if g_finite else float("nan")
+    nat = float(sum(np.sum(np.abs(x) * np.abs(y)) for x, y in zip(g, d))) if g_finite else 0.0
+
+    def at(h):
+        return float(scalar([l + h * jnp.asarray(y) for l, y in zip(leaves, d)]))
+
+    try:
+        h = 1e-5
+        d1 = (at(h) - at(-h)) / (2 * h)
+        d2 = (at(h / 2) - at(-h / 2)) / h
+    except Exception:
+        rec.count("form_grad_fd_raises")
+        return
+    if not (np.isfinite(d1) and np.isfinite(d2)):
+        rec.count("form_grad_fd_nonfinite")
+        return
+    fd = (4 * d2 - d1) / 3
+    if not g_finite:
+        # the function is differentiable along the direction (the differences are finite and
+        # agree) but reverse mode returns NaN / inf: a dead branch poisoning the cotangent
+        if abs(d2 - d1) <= 1e-3 * (abs(d1) + abs(d2)) + 1e-9 * (1 + abs(f0)):
+            bad = [i for i, x in enumerate(g) if not np.all(np.isfinite(x))]
+            report("FORM", "grad-nonfinite", key,
+                   {"leaves_with_nonfinite_gradient": bad, "value": f0, "finite_difference": fd,
+                    "variant": "jax.grad of a linear functional of the result; inputs, value and "
+                               "central differences finite"})
+        else:
+            rec.count("form_grad_fd_unresolved")
+        return
+    tol = 1e-4 * (abs(fd) + abs(gd)) + 20 * abs(d2 - d1) + 1e-7 * nat + 1e-9 * (1 + abs(f0))
+    if abs(gd - fd) > tol:
+        report("FORM", "grad-value", key,
+               {"grad_dot_direction": gd, "finite_difference": fd, "fd_h": d1, "fd_h_half": d2,
+                "err_over_tol": abs(gd - fd) / tol,
+                "variant": "directional derivative from jax.grad vs Richardson central difference"})
+
+
+# ------------------------------------------------------------------ recall and sibling variants
+def _alt_value(a):
+    """another legal value of the same shape and type (None if this argument is left alone)."""
+    from jax import numpy as jnp
+
+    if _is_libobj(a):
+        fields = _rebuilders().get(type(a))
+        if not fields:
+            return None
+        for f, g in (("mu", lambda v: v * 0.7 + 0.3), ("nu", lambda v: v * 0.7 + 0.3),
+                     ("b", lambda v: v * 0.7 + 0.3)):
+            if f in fields and a.__dict__.get(f) is not None:
+                try:
+                    o = _rebuild(a, f, jnp.asarray(g(np.asarray(a.__dict__[f], dtype=float))))
+                    for m in ("Sigma", "Lambda"):  # and another spread, where there is one
+                        if m in fields and o.__dict__.get(m) is not None:
+                            o = _rebuild(o, m, jnp.asarray(np.asarray(o.__dict__[m], float) * 1.9))
+                            break
+                    return o
+                except Exception:
+                    return None
+        return None
+    if not (hasattr(a, "dtype") and hasattr(a, "ndim")) or a.ndim == 0:
+        return None
+    if np.issubdtype(a.dtype, np.floating):
+        return jnp.asarray(np.asarray(a) * 1.37 + 0.11)
+    if np.issubdtype(a.dtype, np.integer) and a.ndim == 1 and a.shape[0] > 1:
+        return jnp.asarray(np.asarray(a)[::-1].copy())
+    return None
+
+
+def _alt_args(args, kwargs, which):
+    """the same call with other values in some of the arguments. which = 0: all that can be
+    varied; which = k > 0: only the k-th variable argument (the others stay the very same
+    objects - a memo keyed by the identity or value of *some* arguments)."""
+    slots = [("a", i) for i in range(len(args))] + [("k", k) for k in kwargs]
+    alts = {}
+    for s in slots:
+        v = _alt_value(args[s[1]] if s[0] == "a" else kwargs[s[1]])
+        if v is not None:
+            alts[s] = v
+    if not alts:
+        return None
+    keys = list(alts)
+    if which > 0:
+        keys = [keys[(which - 1) % len(keys)]]
+    a2 = list(args)
+    k2 = dict(kwargs)
+    for s in keys:
+        if s[0] == "a":
+            a2[s[1]] = alts[s]
+        else:
+            k2[s[1]] = alts[s]
+    return tuple(a2), k2
 
 
 def _run_recall(fn, key, res, self0, args0, kwargs0, rec, report, count):
     """on one clone: the call with other argument values first, then the original call again -
     the second answer must be the original answer (a memo keyed by too few of the arguments)."""
-    alt = _alt_args(args0, kwargs0)
+    n = _counts.get(("recall", key), 0)
+    _counts[("recall", key)] = n + 1
+    alt = _alt_args(args0, kwargs0, n)
     if alt is None:
         return
     c = clone_state(self0)
@@ -486,6 +705,15 @@ def _run_recall(fn, key, res, self0, args0, kwargs0, rec, report, count):
     if bad is not None:
         report("FORM", "recall-value", key, dict(bad, variant="same call after a call with other "
                                                  "argument values on the same object"))
+    # every call hands out fresh objects: the very object an earlier call returned, handed out
+    # again, lets one caller's update / normalize / update_Sigma reach into the other's result
+    first, second = [], []
+    from . import hooks
+    hooks._collect(res, first)
+    hooks._collect(again, second)
+    if any(o is p for o in first for p in second):
+        report("FORM", "recall-same-object", key,
+               {"variant": "two calls with the same arguments returned the very same object"})
 
 
 INTEGRATE_NAMES = {
@@ -600,11 +828,12 @@ def run(fn, name, key, res, pre, state, report, count):
     # traced arguments (pytrees), everything else (strings, index arrays, flags) closed over
     if n_call <= FIRST_JIT and _jit_selected(key):
         _run_jit(fn, key, res, self0, args0, kwargs0, rec, report, count)
+        _run_grad(fn, key, res, self0, args0, kwargs0, rec, report, count)
     # ---- recall and sibling variants
-    if n_call <= FIRST or n_call % EVERY == 0:
-        if _is_libobj(self0):
-            _run_recall(fn, key, res, self0, args0, kwargs0, rec, report, count)
-            _run_siblings(name, key, res, self0, args0, kwargs0, rec, report, count)
+    if _is_libobj(self0) and (n_call <= FIRST_INT or n_call % EVERY == 0):
+        _run_recall(fn, key, res, self0, args0, kwargs0, rec, report, count)
+    if _is_libobj(self0) and (n_call <= FIRST or n_call % EVERY == 0):
+        _run_siblings(name, key, res, self0, args0, kwargs0, rec, report, count)
     # ---- int variant
     cands = _candidates(self0, args0, kwargs0)
     if not cands:
